@@ -137,12 +137,12 @@ func w1GenProp(r *rand.Rand, c *simrt.Case, nclients, maxOps int, prop, tier str
 				if r.IntN(4) == 0 {
 					c.Program = append(c.Program, simrt.Op{Actor: cl, Kind: "sleep", A: int64(1 + r.IntN(30))})
 				}
-				c.Program = append(c.Program, simrt.Op{Actor: cl, Kind: "fetch", A: int64(r.IntN(6)), B: int64(r.IntN(2)), C: int64(r.IntN(200)), D: pick[int64](r, 1, 30, 70, 150, 400, 1<<20)})
+				c.Program = append(c.Program, simrt.Op{Actor: cl, Kind: "fetch", A: int64(r.IntN(6)), B: int64(r.IntN(2)), C: int64(r.IntN(200)), D: pick[int64](r, 1, 30, 70, 150, 400, 1<<20, 1<<20, 1<<31-1, 1<<31-101)})
 			}
 		}
 		// a late fetcher that runs after every producer finished (stable log, all paths: segment/cache/range)
 		for i := 0; i < 3+r.IntN(4); i++ {
-			c.Program = append(c.Program, simrt.Op{Actor: 100, Kind: "fetch", A: int64(r.IntN(6)), B: int64(r.IntN(2)), C: int64(r.IntN(200)), D: pick[int64](r, 1, 30, 70, 150, 400, 1<<20)})
+			c.Program = append(c.Program, simrt.Op{Actor: 100, Kind: "fetch", A: int64(r.IntN(6)), B: int64(r.IntN(2)), C: int64(r.IntN(200)), D: pick[int64](r, 1, 30, 70, 150, 400, 1<<20, 1<<20, 1<<31-1, 1<<31-101)})
 		}
 		if r.IntN(3) == 0 {
 			w1S3WriteFaults(r, c, 1+r.IntN(2))
